@@ -166,6 +166,50 @@ class Quot:
         self.num, self.den = num, den
 
 
+class _NotImpl:
+    def __repr__(self):
+        return "NotImplemented"
+
+
+NOTIMPL = _NotImpl()
+
+
+class HashVal:
+    """The result of hash(x): equal for equal keys, distinct for structurally different keys."""
+
+    def __init__(self, key):
+        self.key = key
+
+    def __hash__(self):
+        return hash(self.key)
+
+    def __eq__(self, o):
+        return isinstance(o, HashVal) and self.key == o.key
+
+
+class ObjKey:
+    """An object of the analysed program used as a dict key / set element: hashed by its (interpreted) __hash__ and compared by
+    identity first, then by its (interpreted) __eq__, exactly like CPython's dict lookup."""
+
+    def __init__(self, it, obj, hv, by_identity):
+        self.it, self.obj, self.hv, self.by_identity = it, obj, hv, by_identity
+
+    def __hash__(self):
+        return hash(self.hv)
+
+    def __eq__(self, o):
+        if not isinstance(o, ObjKey):
+            return False
+        if self.obj is o.obj:
+            return True
+        if self.by_identity and o.by_identity:
+            return False
+        return self.it.equal(self.obj, o.obj, None)
+
+    def __repr__(self):
+        return "<key %r>" % (self.obj,)
+
+
 class VFile:
     """A virtual text file (the analysed code never touches the real file system)."""
 
@@ -1503,6 +1547,26 @@ class Interp:
             return ("enum", v.cls, v.fields["name"])
         if isinstance(v, slice):
             return ("slice", v.start, v.stop, v.step)
+        if isinstance(v, (ObjKey, HashVal)):
+            return v
+        if isinstance(v, Obj) and v.cls in self.pkg.classes and not self.pkg.unknown_bases(v.cls):
+            eq_cls = hash_cls = None
+            for c in self.pkg.mro(v.cls):
+                ms = self.pkg.classes[c].methods
+                if hash_cls is None and ("__hash__" in ms or "__hash__" in self.pkg.classes[c].consts):
+                    hash_cls = c
+                if eq_cls is None and "__eq__" in ms:
+                    eq_cls = c
+                if eq_cls is not None or hash_cls is not None:
+                    break            # the first class of the MRO that defines either decides (defining __eq__ alone unsets __hash__)
+            if eq_cls is None and hash_cls is None:
+                return ObjKey(self, v, ("id", id(v)), True)
+            if hash_cls is None or "__hash__" not in self.pkg.classes[hash_cls].methods:
+                raise PathRaise("TypeError(unhashable type: '%s')" % v.cls, self.where(node) if node is not None else "?")
+            hv = self.call_method(v, "__hash__", [])
+            return ObjKey(self, v, self.hashable(hv, node), eq_cls is None and self.dunder(v, "__eq__") is None)
+        if isinstance(v, (Pose, Arr)):
+            raise PathRaise("TypeError(unhashable type: 'numpy.ndarray')", self.where(node) if node is not None else "?")
         raise self.unsupported("unhashable key %r" % (v,), node)
 
     # ------------------------------------------------------------------------------------ truth
@@ -1617,6 +1681,8 @@ class Interp:
             return "graphslam"
         if nm == "__debug__":
             return True
+        if nm == "NotImplemented":
+            return NOTIMPL
         if nm == "float":
             return FLOAT
         raise self.unsupported("unknown name %s" % nm, n)
@@ -1992,7 +2058,13 @@ class Interp:
         if isinstance(l, Obj) and isinstance(r, Obj):
             f_ = self.dunder(l, "__eq__")
             if f_ is not None:
-                return self.truth(self.call_function(f_, [l, r]), node)
+                res = self.call_function(f_, [l, r])
+                if res is NOTIMPL:
+                    g_ = self.dunder(r, "__eq__")
+                    res = self.call_function(g_, [r, l]) if g_ is not None else NOTIMPL
+                    if res is NOTIMPL:
+                        return l is r
+                return self.truth(res, node)
             if getattr(l, "tuple_fields", None) and getattr(r, "tuple_fields", None):
                 return self.equal(tuple(l.fields[k] for k in l.tuple_fields), tuple(r.fields[k] for k in r.tuple_fields), node)
             return l is r            # default object equality is identity (enum members are singletons)
@@ -3310,6 +3382,8 @@ class Interp:
         return Poly.const(v)
 
     def unhash(self, k):
+        if isinstance(k, ObjKey):
+            return k.obj
         if isinstance(k, tuple) and len(k) == 2 and k[0] == "num":
             return Poly.const(k[1])
         if isinstance(k, tuple) and len(k) == 3 and k[0] == "enum":
@@ -3547,6 +3621,11 @@ class Interp:
             return out
         if name == "id":
             return Poly.var("pyid#%d" % id(args[0]))
+        if name == "hash":
+            # equal keys have equal hashes; structurally different keys are given different hashes (a collision would only cost
+            # an extra __eq__ call in a real dict, it cannot change which keys are equal)
+            k_ = self.hashable(args[0], n)
+            return HashVal(k_.hv if isinstance(k_, ObjKey) else k_)
         if name == "abs":
             return self.absval(args[0], n)
         if name == "bool":
@@ -4462,7 +4541,7 @@ def _dotp(r, c):
 
 OPNAME = {ast.Lt: "<", ast.LtE: "<=", ast.Gt: ">", ast.GtE: ">=", ast.Eq: "==", ast.NotEq: "!="}
 ARR_METHODS = {"diagonal", "setdiag", "trace", "eliminate_zeros", "sum_duplicates", "setflags", "tobytes", "tostring", "__array__", "squeeze", "conj", "conjugate", "all", "item", "max", "min", "fill", "tocsr", "tocsc", "tolil", "todense", "toarray", "tocoo", "any", "view", "copy", "dot", "transpose", "flatten", "ravel", "tolist", "astype", "reshape", "sum", "round"}
-BUILTIN_NAMES = {"format", "divmod", "slice", "map", "filter", "sorted", "getattr", "hasattr", "setattr", "next", "iter", "id", "abs", "bool", "open", "str", "repr", "set", "frozenset", "dict", "isinstance", "issubclass", "type", "len", "range", "zip", "enumerate", "reversed", "list", "tuple",
+BUILTIN_NAMES = {"hash", "format", "divmod", "slice", "map", "filter", "sorted", "getattr", "hasattr", "setattr", "next", "iter", "id", "abs", "bool", "open", "str", "repr", "set", "frozenset", "dict", "isinstance", "issubclass", "type", "len", "range", "zip", "enumerate", "reversed", "list", "tuple",
                  "all", "any", "sum", "max", "min", "super", "print", "round", "int", "abs", "NotImplementedError"}
 
 
